@@ -45,23 +45,25 @@ def _fresh(prop, n, extra_env):
 
 def main(name, args):
     if name == "selftest-schema":
-        import jsonschema
-        ok = True
-        man = json.load(open(os.path.join(runner.VERIF_DIR, "MANIFEST.json")))
-        jsonschema.validate(man, json.load(open("/root/.vp/MANIFEST.schema.json")))
-        sch = json.load(open("/root/.vp/EVIDENCE.schema.json"))
-        for f in sorted(glob.glob(os.path.join(runner.EVIDENCE_DIR, "*.json"))):
-            try:
-                jsonschema.validate(json.load(open(f)), sch)
-            except Exception as e:
-                ok = False
-                print("INVALID", f, str(e)[:200])
-        print("schema ok" if ok else "schema FAILED")
-        return 0 if ok else 2
+        # jsonschema lives in the tooling venv (python3-vt), not in /venv
+        code = (
+            "import json,glob,jsonschema,sys\n"
+            "ok=True\n"
+            "jsonschema.validate(json.load(open('%s/MANIFEST.json')), json.load(open('/root/.vp/MANIFEST.schema.json')))\n"
+            "sch=json.load(open('/root/.vp/EVIDENCE.schema.json'))\n"
+            "for f in sorted(glob.glob('%s/*.json')):\n"
+            "    try: jsonschema.validate(json.load(open(f)), sch)\n"
+            "    except Exception as e:\n"
+            "        ok=False; print('INVALID', f, str(e)[:200])\n"
+            "print('schema ok' if ok else 'schema FAILED'); sys.exit(0 if ok else 2)\n" % (runner.VERIF_DIR, runner.EVIDENCE_DIR))
+        p = subprocess.run(["python3-vt", "-c", code], capture_output=True, text=True)
+        print(p.stdout + p.stderr[-500:])
+        return p.returncode
     n = args.runs or 6
     props = sorted(os.path.basename(f)[:-3].upper() for f in glob.glob(os.path.join(runner.VERIF_DIR, "checks", "c[0-9]*.py")))
-    if getattr(args, "wall", None):
-        pass
+    only = os.environ.get("DSIM_SELFTEST_PROPS")
+    if only:
+        props = [p for p in props if p in only.upper().split(",")]
     bad = 0
     for prop in props:
         a = _digests(prop, n)
